@@ -6,7 +6,9 @@ func init() {
 	vHarnesses["H_C11_rename"] = H_C11_rename
 }
 
-var vSpecC11 = vSpec{Depth: 3, Width: 2, Kinds: "mlsn", KeyAlpha: "ab", KeyMin: 1, KeyMax: 1, StrAlpha: "xy", StrMax: 1, NoEmptyList: true}
+func vSpecC11f() vSpec {
+	return vSpec{Depth: vP("depth", 3, 4), Width: vP("width", 2, 2), Kinds: "mlsn", KeyAlpha: "ab", KeyMin: 1, KeyMax: 1, StrAlpha: "xy", StrMax: 1, NoEmptyList: true}
+}
 
 // refParentC11: Appendix A.6 — the parent of a dot path, walking maps only.
 func refParentC11(m map[string]interface{}, segs []string) (map[string]interface{}, bool) {
@@ -26,8 +28,8 @@ func refParentC11(m map[string]interface{}, segs []string) (map[string]interface
 }
 
 func H_C11_rename() {
-	m := vNondetMap(vSpecC11)
-	nseg := 1 + vChoose(3)
+	m := vNondetMap(vSpecC11f())
+	nseg := 1 + vChoose(vP("segs", 3, 4))
 	segs := make([]string, nseg)
 	for i := range segs {
 		segs[i] = vNondetString(1, 1, "abc")
@@ -95,8 +97,8 @@ func vWalkC11(m map[string]interface{}, segs []string) (parent map[string]interf
 }
 
 func H_C11_set() {
-	m := vNondetMap(vSpecC11)
-	nseg := 1 + vChoose(3)
+	m := vNondetMap(vSpecC11f())
+	nseg := 1 + vChoose(vP("segs", 3, 4))
 	segs := make([]string, nseg)
 	for i := range segs {
 		segs[i] = vNondetString(1, 1, "abc")
@@ -127,8 +129,8 @@ func H_C11_set() {
 }
 
 func H_C11_remove() {
-	m := vNondetMap(vSpecC11)
-	nseg := 1 + vChoose(3)
+	m := vNondetMap(vSpecC11f())
+	nseg := 1 + vChoose(vP("segs", 3, 4))
 	segs := make([]string, nseg)
 	for i := range segs {
 		segs[i] = vNondetString(1, 1, "abc")
